@@ -257,6 +257,9 @@ STAGE_ONLY = {"t4": {"cache": {"enabled": False}}}
 ALL_CACHE_CONFIGS = dict(CACHE_CONFIGS)
 ALL_CACHE_CONFIGS["lru_ttl_stage"] = W.deep_merge(CACHE_CONFIGS["lru_ttl"], STAGE_ONLY)
 ALL_CACHE_CONFIGS["bytes_stage"] = W.deep_merge(CACHE_CONFIGS["bytes"], STAGE_ONLY)
+# turn-level manager alone with cache_bust_mode "none": nothing invalidates on apply, coherence rests on the version in the
+# key alone (explored to depth 3 in both tiers)
+ALL_CACHE_CONFIGS["turnlevel_version_keyed"] = W.deep_merge(CACHE_CONFIGS["turnlevel_only"], {"t4": {"cache_bust_mode": "none"}})
 OFF = {"t1": {"cache": {"enabled": False}}, "t2": {"cache": {"enabled": False}}, "t4": {"cache": {"enabled": False}}}
 LAYER_OFF = {
     "t1": {"t1": {"cache": {"enabled": False}}, "perf": {"t1": {"cache": {"max_entries": 0, "max_bytes": 0}}}},
@@ -682,12 +685,15 @@ def run(run: Run) -> None:
     # while the version does not move)
     hs = histories(depth, extra_first=() if run.thorough else (("KILL",),))
     items = [(cc, h) for cc in CACHE_CONFIGS for h in hs]
+    items += [("turnlevel_version_keyed", h) for h in (hs if depth == 3 else histories(3)) if len(h) <= 3]
     run.notes["depth"] = depth
     run.notes["alphabet_size"] = len(OPS)
     run.notes["histories"] = len(items)
     run.rule = ("every history of <=%d operations over a %d-letter alphabet (turns, graph edits, memory additions, kill switch, "
                 "config changes, cache-clock / logical-day advances, state switch) ending in a turn and containing an earlier turn, "
-                "x 3 cache configurations; each executed with caches on and off in the same process; non-trivial = >=2 turns" % (depth, len(OPS)))
+                "x 3 cache configurations (LRU+TTL stage caches, byte-bounded stage caches, turn-level manager alone), plus the <=3-operation "
+                "histories under the turn-level manager with cache_bust_mode none (version-keyed only); each executed with caches on and off "
+                "in the same process; non-trivial = >=2 turns" % (depth, len(OPS)))
     # the harness must be deterministic: same history twice -> same observation
     a = execute(hs[0], "lru_ttl", True, run.scratch)
     b = execute(hs[0], "lru_ttl", True, run.scratch)
